@@ -233,4 +233,95 @@ theorem compute32_spec (d : Bytes) : ∀ c, c < W32 → compute32 d c = (c + wor
   | case2 a => intro c _; simp only [compute32, wordsum]
   | case3 => intro c h; simp only [compute32, wordsum, W32] at *; omega
 
+/-! ### the RFC 1071 reference: one's-complement sum with end-around carry -/
+
+theorem ocRep_succ (m : Nat) : ocRep (m + 1) = m % 65535 + 1 := by
+  unfold ocRep; rw [if_neg (by omega)]; simp
+
+theorem ocAdd_rep (n w : Nat) (hw : w ≤ 65535) : ocAdd (ocRep n) w = ocRep (n + w) := by
+  cases n with
+  | zero =>
+    have h0 : ocRep 0 = 0 := by simp [ocRep]
+    rw [h0, Nat.zero_add]
+    cases w with
+    | zero => simp [ocAdd, h0]
+    | succ v =>
+      rw [ocRep_succ]; unfold ocAdd
+      have : v % 65535 = v := Nat.mod_eq_of_lt (by omega)
+      split <;> omega
+  | succ m =>
+    have e : m + 1 + w = (m + w) + 1 := by omega
+    rw [e, ocRep_succ, ocRep_succ]
+    have h1 := Nat.add_mod m w 65535
+    have h2 : m % 65535 < 65535 := Nat.mod_lt _ (by omega)
+    unfold ocAdd
+    by_cases hw' : w = 65535
+    · subst hw'; simp at h1; split <;> omega
+    · have h3 : w % 65535 = w := Nat.mod_eq_of_lt (by omega)
+      rw [h3] at h1
+      split
+      · have : (m % 65535 + w) % 65535 = m % 65535 + w - 65535 := by omega
+        omega
+      · have : (m % 65535 + w) % 65535 = m % 65535 + w := Nat.mod_eq_of_lt (by omega)
+        omega
+
+theorem words_le (d : Bytes) : ∀ w ∈ words d, w ≤ 65535 := by
+  induction d using wordsum.induct with
+  | case1 a b rest ih =>
+    intro w hw
+    simp only [words, List.mem_cons] at hw
+    have := u8_lt a; have := u8_lt b
+    rcases hw with h | h
+    · omega
+    · exact ih w h
+  | case2 a => intro w hw; simp only [words, List.mem_cons, List.not_mem_nil, or_false] at hw; have := u8_lt a; omega
+  | case3 => intro w hw; simp [words] at hw
+
+theorem foldl_ocAdd_words (d : Bytes) : ∀ n, (words d).foldl ocAdd (ocRep n) = ocRep (n + wordsum d) := by
+  induction d using wordsum.induct with
+  | case1 a b rest ih =>
+    intro n
+    have := u8_lt a; have := u8_lt b
+    simp only [words, wordsum, List.foldl_cons]
+    rw [ocAdd_rep n _ (by omega), ih]
+    congr 1; omega
+  | case2 a =>
+    intro n
+    have := u8_lt a
+    simp only [words, wordsum, List.foldl_cons, List.foldl_nil]
+    exact ocAdd_rep n _ (by omega)
+  | case3 => intro n; simp [words, wordsum]
+
+/-- the one's-complement sum of the words is the one's-complement representative of their plain sum -/
+theorem ocSum_words (d : Bytes) : ocSum (words d) = ocRep (wordsum d) := by
+  have h := foldl_ocAdd_words d 0
+  have h0 : ocRep 0 = 0 := by simp [ocRep]
+  rw [h0, Nat.zero_add] at h
+  exact h
+
+theorem rfc1071_eq (d : Bytes) : rfc1071 d = 65535 - ocRep (wordsum d) := by
+  unfold rfc1071; rw [ocSum_words]
+
+/-- ComputeChecksum then FoldChecksum: 0xffff minus the representative of the TRUE sum, every length -/
+theorem fold_compute (d : Bytes) (c : Nat) (hc : c < W32) (hl : d.length ≤ 281474976710656) :
+    fold (compute d c) = 65535 - ocRep (c + wordsum d) := by
+  have hT := total_lt_W64 d c hc hl
+  obtain ⟨r1, r2, r3, r4, _⟩ := reduce_props (c + wordsum d) hT
+  rw [compute_eq d c hc hl, fold_closed _ r1]
+  congr 1
+  apply ocRep_congr _ _ r2
+  by_cases h : c + wordsum d < W32
+  · rw [r3 h]
+  · have := r4 (by omega); omega
+
+theorem wordsum_replicate_ff (n : Nat) : wordsum (List.replicate (2 * n) (255 : UInt8)) = 65535 * n := by
+  induction n with
+  | zero => simp [wordsum]
+  | succ m ih =>
+    have e : 2 * (m + 1) = (2 * m + 1) + 1 := by omega
+    rw [e, List.replicate_succ, List.replicate_succ]
+    simp only [wordsum, ih]
+    have : (255 : UInt8).toNat = 255 := rfl
+    rw [this]; omega
+
 end Gp.Cksum
